@@ -36,11 +36,11 @@ def gen_source(c, indent=''):
             lines += [ind + d for d in decos]
             lines += [f'{ind}def {name}({sig}){ret}:', f'{ind}    """doc of {name}"""', f'{ind}    return x']
         elif k == 'property':
-            ann, has_set = m[1], m[2]
+            ann, has_set, ann_set = m[1], m[2], (m[3] if len(m) > 3 else m[1])
             lines += [f'{ind}@property', f'{ind}def {name}(self){" -> int" if ann else ""}:', f'{ind}    """doc of {name}"""',
                       f'{ind}    return getattr(self, "_{name}", 0)']
             if has_set:
-                lines += [f'{ind}@{name}.setter', f'{ind}def {name}(self, v{": int" if ann else ""}):', f'{ind}    self._{name} = v']
+                lines += [f'{ind}@{name}.setter', f'{ind}def {name}(self, v{": int" if ann_set else ""}):', f'{ind}    self._{name} = v']
         elif k == 'nested':
             lines += gen_source(m[1], ind)
         elif k == 'foreign':
